@@ -35,20 +35,27 @@ def run(chk):
     for ci, ch in enumerate([c for c in chunks if c]):
         for j, c in enumerate(ch):
             impl_by_idx[id(c)] = outs[ci][j]
-    # model: one Coq evaluation per (config, reference)
+    # model: one Coq evaluation per config: the whole pass over the references (select_pass), in the order of REFS
     exprs = []
     index = []
     for c in cfgs:
         regs = core.coq_list([core.coq_str(k) for k in c["keys"]])
+        refs = []
         for (cls, attr, n) in REFS:
             has_rrel = cls[-1] == c["rrel_on"]
-            exprs.append("show_choice (select %s %s %s %s)" % (regs, core.coq_str(cls), core.coq_str(attr), core.coq_bool(has_rrel)))
             index.append((c, cls, attr, n, has_rrel))
-    imports = ("From TxV Require Import Core.Base Core.Show Model.ScopeDefs Gen.SrcScope Model.Scope.\n"
+            refs.append("(%s, %s, %s)" % (core.coq_str(cls), core.coq_str(attr), core.coq_bool(has_rrel)))
+        exprs.append("sjoin \"|\" (map show_choice (select_pass %s %s []))" % (regs, core.coq_list(refs)))
+    imports = ("From TxV Require Import Core.Base Core.Show Model.ScopeDefs Gen.SrcScope Model.RrelSyntax Model.Scope.\n"
                "Open Scope string_scope.\n"
                "Definition show_choice (c : choice) : string := match c with FromGrammar => \"grammar\" "
-               "| Registered k => show_str k | Default => \"default\" end.")
-    vals, errs = core.coq_eval("C32", imports, exprs)
+               "| Registered k => show_str k | Default => \"default\" end.\n"
+               "Definition show_prov (p : provider) : string := match p with PRrel e => \"rrel\" | PInvalid => \"invalid\" | PCallable _ => \"callable\" end.")
+    pvals, errs = core.coq_eval("C32", imports, exprs)
+    vals = []
+    for v in pvals:
+        parts = v.split("|") if v is not None else [None] * len(REFS)
+        vals.extend(parts if len(parts) == len(REFS) else [None] * len(REFS))
     disagreements, failures = [], []
     if errs:
         disagreements.append({"case": "coq evaluation", "model": errs[:2]})
@@ -104,6 +111,18 @@ def run(chk):
         if tg != ts:
             failures.append({"case": {"rrel": g["rrel"]}, "impl": {"grammar": og, "string": os_},
                              "what": "registered RREL string behaves differently from the grammar RREL", "tags": []})
+    # the model's RREL parser (Model/RrelSyntax.v) accepts exactly the strings the implementation accepts at registration
+    bad_strings = ["items.", "(items", "~"]
+    allr = RRELS + bad_strings
+    svals, serrs = core.coq_eval("C32s", imports, ["show_prov (registered_provider (RString %s))" % core.coq_str(r) for r in allr])
+    sres = core.run_impl("c32", {"configs": [{"keys": [], "string_keys": {"RefA.single": r}, "rrel_on": "N", "rrel": "^items"} for r in bad_strings]})
+    accepted = {r: True for r in RRELS}
+    for r, o in zip(bad_strings, sres):
+        accepted[r] = "error" not in o
+    for r, mv in zip(allr, svals):
+        chk.count(("rrelparse", r))
+        if mv is None or (mv == "rrel") != accepted[r]:
+            disagreements.append({"case": {"registered_string": r}, "impl": "accepted" if accepted[r] else "rejected", "model": mv})
     chk.sample({"rrel_string_vs_grammar": RRELS})
     chk.cov["rule"] = ("all %d subsets of the 8 registration keys relevant to rules RefA/RefB (a third with decoy keys), grammar RREL on rule A, on rule B or on neither, "
                        "single and list attributes; distinct = distinct (key set, RREL placement); plus %d RREL strings registered vs written in the grammar" % (2 ** len(KEYS), len(RRELS)))
